@@ -59,7 +59,7 @@ impl OpTag {
     }
 }
 
-#[derive(Clone, Debug, Serialize, Deserialize, PartialEq, Eq)]
+#[derive(Clone, Debug, Serialize, Deserialize, PartialEq, Eq, Hash)]
 pub enum Res {
     Ok,
     Reply { mid: u64, nonce: u64, idx: u64 },
@@ -109,7 +109,7 @@ impl Res {
     }
 }
 
-#[derive(Clone, Debug, Serialize, Deserialize, PartialEq, Eq)]
+#[derive(Clone, Debug, Serialize, Deserialize, PartialEq, Eq, Hash)]
 pub enum Out {
     Ok,
     Err(i64),
@@ -118,7 +118,7 @@ pub enum Out {
     Dropped,
 }
 
-#[derive(Clone, Debug, Serialize, Deserialize, PartialEq, Eq)]
+#[derive(Clone, Debug, Serialize, Deserialize, PartialEq, Eq, Hash)]
 pub enum RunOutEv {
     True,
     False,
@@ -127,7 +127,7 @@ pub enum RunOutEv {
     Dropped,
 }
 
-#[derive(Clone, Debug, Serialize, Deserialize, PartialEq, Eq)]
+#[derive(Clone, Debug, Serialize, Deserialize, PartialEq, Eq, Hash)]
 pub enum JoinRes {
     Completed { killed: bool, journal: Vec<String>, acc_ok: bool },
     Failed { phase: String, code: i64, killed: bool, journal: Option<Vec<String>>, acc_ok: bool },
@@ -135,7 +135,7 @@ pub enum JoinRes {
     Cancelled,
 }
 
-#[derive(Clone, Debug, Serialize, Deserialize, PartialEq, Eq)]
+#[derive(Clone, Debug, Serialize, Deserialize, PartialEq, Eq, Hash)]
 pub enum HKind {
     Clone,
     Drop,
@@ -146,13 +146,13 @@ pub enum HKind {
     CloneSelf,
 }
 
-#[derive(Clone, Debug, Serialize, Deserialize, PartialEq, Eq)]
+#[derive(Clone, Debug, Serialize, Deserialize, PartialEq, Eq, Hash)]
 pub enum EvKind {
     Inv { who: Who, k: u32, op: OpTag, a: Option<u32>, mid: Option<u64>, ms: Option<u64>, via: String, budget: bool },
     Ret { who: Who, k: u32, res: Res, polls: u32 },
     Cancelled { who: Who, k: u32, polls: u32 },
     /// synchronous handle-table operation (single event): result strong/weak/none after the op
-    Handle { who: Who, k: u32, op: HKind, h: u32, to: Option<u32>, a: Option<u32>, ok: bool, strong: bool },
+    Handle { who: Who, k: u32, op: HKind, h: u32, to: Option<u32>, a: Option<u32>, ok: bool, strong: bool, moved: bool },
     StartEnter { a: u32 },
     StartExit { a: u32, out: Out },
     HEnter { a: u32, mid: u64 },
@@ -178,10 +178,10 @@ pub enum EvKind {
     /// dead_letter_count() (test-utils) sampled
     DlCount { n: u64 },
     SpawnPanic { a: u32, msg: String },
-    Spawned { a: u32, raw: u64, cap: Option<usize> },
+    Spawned { a: u32, raw: u64, cap: Option<usize>, peer: bool },
 }
 
-#[derive(Clone, Debug, Serialize, Deserialize, PartialEq, Eq)]
+#[derive(Clone, Debug, Serialize, Deserialize, PartialEq, Eq, Hash)]
 pub struct Ev {
     pub seq: u64,
     /// virtual microseconds since the start of the run
@@ -278,7 +278,7 @@ pub fn install(erase: Option<u64>, nonce_seed: u64) {
             raw_ids: BTreeMap::new(),
             erase,
             probes: Probes::default(),
-            max_log: 6000,
+            max_log: 12000,
             overflow: false,
             closing: false,
         })
@@ -429,6 +429,8 @@ impl tracing::Subscriber for Capture {
         if v.message.starts_with("Dead letter") {
             let raw = v.actor_id.unwrap_or(0);
             let a = actor_of_raw(raw);
+            // raw ids grow across the runs of one process: keep them only when unmapped
+            let raw = if a.is_some() { 0 } else { raw };
             let op = try_with(|w| w.cur_op).flatten();
             log(EvKind::DeadLetter { raw, a, msg_type: v.msg_type, reason: v.reason, operation: v.operation, op });
         } else if level == tracing::Level::ERROR {
